@@ -21,10 +21,10 @@ class StreamGen:
     def __init__(self, uni):
         self.c = {n: ids[0] for n, ids in uni.by_name.items()}
 
-    def gen(self, rng, n_ops=12, n_threads=3):
+    def gen(self, rng, n_ops=12, n_threads=3, rich=False):
         c = self.c
         tids = rng.sample([11, 12, 13, 14, 0x200, 0x201], n_threads)
-        pids = [rng.choice([1, 7, 44, 300]) for _ in tids]
+        pids = [rng.choice([0, 1, 7, 44, 300]) for _ in tids]
         names = ['launchd', 'xpcproxy', 'Safari', 'kernel_task', 'a', '']
         declared = rng.sample(range(n_threads), rng.randint(1, n_threads))
         threads = [(tids[i], pids[i], rng.choice(names).encode()) for i in declared]
@@ -33,6 +33,26 @@ class StreamGen:
             i = rng.randrange(n_threads)
             tid = tids[i]
             r = rng.random()
+            if rich and rng.random() < 0.3:
+                # the other records of the trace class: thread names (1..3 chunks), terminate (of named / unnamed / unknown
+                # threads, repeated), process exit, global strings
+                k = rng.randrange(5)
+                if k == 0:
+                    nm = name_words(rng.choice(['worker', 'a' * 40, '', 'é']))
+                    nchunks = rng.choice([1, 1, 2])
+                    for j in range(nchunks):
+                        q = (1 if j == 0 else 0) | (2 if j == nchunks - 1 else 0)
+                        evs.append([tid, c[rng.choice(['TRACE_STRING_THREADNAME', 'TRACE_STRING_THREADNAME_PREV'])], q if nchunks > 1 else 0, nm])
+                elif k == 1:
+                    evs.append([tid, c['TRACE_DATA_THREAD_TERMINATE'], 0, [rng.choice(tids + [0x300, 0]), 0, 0, 0]])
+                elif k == 2:
+                    evs.append([tid, c['TRACE_STRING_PROC_EXIT'], 0, name_words(rng.choice(names[:5]))])
+                elif k == 3:
+                    evs.append([tid, c['TRACE_STRING_GLOBAL'], 3, [0, rng.randint(1, 5)] + name_words('gstr')[:2]])
+                else:
+                    evs.append([tid, c['TRACE_DATA_THREAD_TERMINATE'], 0, [tid, 0, 0, 0]])
+                    evs.append([tid, c['TRACE_DATA_THREAD_TERMINATE'], 0, [tid, 0, 0, 0]])
+                continue
             if r < 0.35:
                 fd = rng.randint(0, 9)
                 evs.append([tid, c['BSC_read'], 1, [fd, 0x1000 + rng.getrandbits(8), rng.randint(1, 99), 0]])
